@@ -8,35 +8,67 @@
   byte string given as the MML text and every set of side files.
 
   What is a THEOREM here (for all inputs of the stage):
+    * parse: `C15_parse_routed` — for EVERY byte string the MML reader (`MML_Input::parse_line`
+      per line over `Line_Buffer` and `Track`: Model/Mml, MmlFix, Lexer, TrackBuilder) ends in a
+      parsed song or in an `InputError` with a non-empty message: `unget` is never called at
+      column 0, never stores beyond the buffer, `strtol` and `get_line` never start beyond the
+      terminating NUL, no `std::invalid_argument` escapes, no key-signature shift is negative, and
+      the loops of `parse_mml_track` and of the track list never exhaust their budgets
+      (weakest-precondition calculus over the parser monad, Proofs/PipelineParse);
     * sample files: `C15_wav_reader_total` — `load_file` + `Wave_File::read` on any byte string
       end in a decoded file or "not found" (from C14's `readWav_total`; the 2 GiB test of
       `load_file` removes C14's length hypothesis);
     * validate: `C15_validator_never_out_of_range` (the `vector::at` of the final-pass break
-      cannot fail in a reachable state — new invariant, Proofs/PipelineValidate) and
+      cannot fail in a reachable state — stack-frame invariant, Proofs/PipelineValidate) and
       `C15_validate_routed` (C04's termination theorem on the outcome type: with enough steps
       `Song_Validator` succeeds or throws one of the player's messages);
     * the components other properties model have no undefined-behaviour outcome:
       `C15_modelled_components_never_foreign` (RIFF C13, conf C20, VGM writer C08, WAV C14);
     * the composition: `C15_pipeline_total_partial`, `C15_pipeline_terminates`.
-  What is still a HYPOTHESIS of the composition (`StageHyps`), stage by stage:
-    * parse      `∀ text, (parseStage text).routed` — discharged below by `C15_parse_routed`
-                 when that theorem is present; otherwise tested by the sanitizer runs;
+  What is still a HYPOTHESIS of the composition (`StageHyps`, Proofs/PipelineStages), stage by stage:
     * optimise   `optimizeStage` is routed given enough steps and passes (C01 proves that the
                  passes preserve the performance, not that the pass loop ends:
                  `C01_optimize_terminates_statement` is a `def`);
     * export mds the converter model never returns one of its undefined-behaviour/loop
                  constructors (`MdsNoUB`: `codec`, `headerWrap`, `bankIndex`, `riff`, writer fuel);
     * the four `Residual`s (no model): VGM play loop, linker, definitions/commands outside
-                 C09/C11's models, a parsed song with an explicit `END` event.
+                 C09/C11's models, a parsed song with an explicit `END` event (the reader emits
+                 none; not proved).
   Memory safety of the compiled binary is not a statement about these models at all: it is
   observed by ASan/UBSan on the generated inputs (checks/c15.py), not proved.
 -/
-import Ctrmml.Proofs.PipelineValidate
+import Ctrmml.Proofs.PipelineStages
 import Ctrmml.Properties.C13
 import Ctrmml.Properties.C20
 import Ctrmml.Properties.C08
 namespace Ctrmml.C15
 open Ctrmml Ctrmml.Pipeline
+
+/-! ### parse -/
+
+/-- **The MML reader is total**: for every byte string given as the MML file the parse stage ends
+in a parsed song or in an `InputError` carrying a message — never in another exception type,
+an undefined-behaviour site of the reader, or an exhausted loop budget. -/
+theorem C15_parse_routed (text : List Nat) : (parseStage text).routed :=
+  parseStage_routed text
+
+/-- the same on the reader itself, from any state and line number (so also for continuation
+lines after an error-free prefix) -/
+theorem C15_reader_never_foreign (ls : List (List Nat)) (n : Nat) (s : Mml.MmlState) (k : String) (s' : Mml.MmlState) :
+    MmlFix.readLines n ls s ≠ .err (.foreign k) s' := by
+  intro h
+  have := MmlFix.readLines_routed ls n s
+  rw [h] at this
+  exact this
+
+def clsOf {α : Type} : Out α → Nat
+  | .ok _ => 0 | .inputError _ => 1 | .foreign _ => 2
+
+/-- non-vacuity: a text that parses, and the two inputs that used to let `std::invalid_argument`
+escape / shift by a negative amount (D12: `*` and `A ~`), now input errors -/
+example : clsOf (parseStage (Lexer.strBytes "A o4l4 cdefg")) = 0 ∧ clsOf (parseStage (Lexer.strBytes "*")) = 1 ∧
+    clsOf (parseStage (Lexer.strBytes "A ~")) = 1 := by
+  refine ⟨by decide +kernel, by decide +kernel, by decide +kernel⟩
 
 /-! ### sample files -/
 
@@ -101,79 +133,18 @@ example : hasEndEvent songOk = false ∧ cls (validateSong songOk 100) = 0 ∧ c
     cls (validateSong songCall 100) = 1 := by
   refine ⟨by decide, by decide, by decide, by decide⟩
 
-/-! ### the stages that are hypotheses -/
-
-/-- the converter model's undefined-behaviour / endless-loop constructors -/
-def ferrIsUB : MdsFile.FErr → Bool
-  | .codec _ | .headerWrap | .bankIndex | .riff _ => true
-  | .writer .fuel | .writer (.player .fuel) | .writer (.player .impossible) => true
-  | _ => false
-
-/-- the mds export never ends in one of them -/
-def MdsNoUB : Prop :=
-  ∀ inp : MdsFile.Input, match MdsFile.exportMds MdsData.Arith.float inp with
-    | .error e => ferrIsUB e = false
-    | .ok _ => True
-
-/-- what the composition assumes about the stages that are not (yet) under a theorem -/
-structure StageHyps (u : Residual) : Prop where
-  /-- the MML reader (Model/Mml + Lexer + TrackBuilder): no foreign exception, no UB site -/
-  parse : ∀ text, (parseStage text).routed
-  /-- the optimiser ends (enough passes) without indexing outside a stack list -/
-  optimize : ∀ song, ∃ S P, ∀ steps passes, steps ≥ S → passes ≥ P → (optimizeStage song steps passes).routed
-  mdsNoUB : MdsNoUB
-  vgmPlay : ∀ inp d, (u.vgmPlay inp d).routed
-  link : ∀ b, (u.link b).routed
-  mdsGap : ∀ inp, (u.mdsGap inp).routed
-  endEvent : ∀ st, (u.endEvent st).routed
-
-theorem ferrOut_routed {α : Type} (inp : MdsFile.Input) (gap : MdsFile.Input → Out α) (hg : ∀ i, (gap i).routed)
-    (e : MdsFile.FErr) (he : ferrIsUB e = false) : (ferrOut inp gap e).routed := by
-  cases e with
-  | data => simp [ferrOut, Out.routed]
-  | dataUnsupported => exact hg inp
-  | writer w =>
-    cases w with
-    | player p => cases p <;> first | (exact absurd he (by decide)) | (simp only [ferrOut, Out.routed]; exact playerMsg_ne_empty _)
-    | fuel => simp [ferrIsUB] at he
-    | _ => simp [ferrOut, Out.routed]
-  | codec c => simp [ferrIsUB] at he
-  | indexRange => simp [ferrOut, Out.routed]
-  | headerWrap => simp [ferrIsUB] at he
-  | seqTooLarge => simp [ferrOut, Out.routed]
-  | bankIndex => simp [ferrIsUB] at he
-  | riff r => simp [ferrIsUB] at he
-
-theorem exportMdsStage_routed (u : Residual) (hu : StageHyps u) (inp : MdsFile.Input) (gap : Bool) :
-    (exportMdsStage u inp gap).routed := by
-  unfold exportMdsStage
-  split
-  · exact hu.mdsGap inp
-  · have h := hu.mdsNoUB inp
-    split
-    · trivial
-    · rename_i e he
-      rw [he] at h
-      exact ferrOut_routed inp u.mdsGap hu.mdsGap e h
-
-theorem exportVgmStage_routed (u : Residual) (hu : StageHyps u) (inp : MdsFile.Input) :
-    (exportVgmStage u inp).routed := by
-  unfold exportVgmStage
-  split
-  · exact hu.vgmPlay _ _
-  · simp [Out.routed]
-  · exact hu.mdsGap inp
+/-! ### the composition -/
 
 /-- **Composite (partial).**  For every text, every set of side files, with or without `-O`,
 for the three tools' paths: if the stages listed in `StageHyps` behave, then with enough
 validator steps and optimiser passes the pipeline ends in output or in an input error carrying
 a message.  Validation (both failure modes: exception type and termination) and sample loading
 are discharged by the theorems above; nothing is assumed about them. -/
-theorem C15_pipeline_total_partial (u : Residual) (hu : StageHyps u)
-    (files : List (String × Bytes)) (opt : Bool) (fmt : Format) (text : List Nat) :
+theorem C15_pipeline_total_partial (u : Residual) (files : List (String × Bytes)) (opt : Bool) (fmt : Format)
+    (hu : StageHyps u opt fmt) (text : List Nat) :
     ∃ S P, ∀ b : Budget, b.steps ≥ S → b.passes ≥ P → (pipeline u files opt fmt b text).routed := by
   unfold pipeline pipelineS
-  have hp := hu.parse text
+  have hp := parseStage_routed text
   cases hps : parseStage text with
   | inputError m =>
     rw [hps] at hp
@@ -187,7 +158,11 @@ theorem C15_pipeline_total_partial (u : Residual) (hu : StageHyps u)
     · exact ⟨0, 0, fun _ _ _ => by simp only [hend, if_true]; exact hu.endEvent st⟩
     · have hend' : hasEndEvent (songOf st) = false := by simpa using hend
       obtain ⟨F, hF⟩ := C15_validate_routed (songOf st) hend'
-      obtain ⟨S, P, hSP⟩ := hu.optimize (songOf st)
+      obtain ⟨S, P, hSP⟩ : ∃ S P, opt = true → ∀ steps passes, steps ≥ S → passes ≥ P →
+          (optimizeStage (songOf st) steps passes).routed := by
+        cases opt with
+        | false => exact ⟨0, 0, fun h => by cases h⟩
+        | true => obtain ⟨S, P, h⟩ := hu.optimize rfl (songOf st); exact ⟨S, P, fun _ => h⟩
       refine ⟨max F S, P, fun b hs hpz => ?_⟩
       simp only [hend', Bool.false_eq_true, if_false]
       have hv := hF b.steps (by omega)
@@ -199,29 +174,47 @@ theorem C15_pipeline_total_partial (u : Residual) (hu : StageHyps u)
         have ho : (if opt then optimizeStage (songOf st) b.steps b.passes else Out.ok (songOf st)).routed := by
           cases opt
           · simp [Out.routed]
-          · simp only [if_true]; exact hSP b.steps b.passes (by omega) hpz
+          · simp only [if_true]; exact hSP rfl b.steps b.passes (by omega) hpz
         cases hos : (if opt then optimizeStage (songOf st) b.steps b.passes else Out.ok (songOf st)) with
         | inputError m => rw [hos] at ho; exact ho
         | foreign k => rw [hos] at ho; exact ho.elim
         | ok song' =>
           simp only []
           cases fmt with
-          | mds => exact exportMdsStage_routed u hu _ _
+          | mds => exact exportMdsStage_routed u hu (by decide) _ _
           | vgm => exact exportVgmStage_routed u hu _
           | link =>
             simp only []
-            have he := exportMdsStage_routed u hu { (mdsInputOf st files).1 with song := song' } (mdsInputOf st files).2
+            have he := exportMdsStage_routed u hu (by decide) { (mdsInputOf st files).1 with song := song' } (mdsInputOf st files).2
             cases hes : exportMdsStage u { (mdsInputOf st files).1 with song := song' } (mdsInputOf st files).2 with
             | inputError m => rw [hes] at he; exact he
             | foreign k => rw [hes] at he; exact he.elim
             | ok mds => exact Out.map_routed _ _ (hu.link mds)
 
+/-- non-vacuity of the composite: residual stages that always succeed; for a VGM export without
+`-O` the stage hypotheses hold (neither the optimiser nor the converter runs), and the
+pipeline on a one-note song then ends in the residual's output -/
+def okResidual : Residual :=
+  { vgmPlay := fun _ _ => .ok [], link := fun _ => .ok (), mdsGap := fun _ => .ok [], endEvent := fun _ => .ok [] }
+
+example : StageHyps okResidual false .vgm where
+  optimize := fun h => by cases h
+  mdsNoUB := fun h => absurd rfl h
+  vgmPlay := fun _ _ => trivial
+  link := fun _ => trivial
+  mdsGap := fun _ => trivial
+  endEvent := fun _ => trivial
+
+example : clsOf (pipeline okResidual [] false .vgm { steps := 50, passes := 1 } (Lexer.strBytes "A c")) = 0 ∧
+    clsOf (pipeline okResidual [] false .vgm { steps := 50, passes := 1 } (Lexer.strBytes "A [c")) = 1 := by
+  refine ⟨by decide +kernel, by decide +kernel⟩
+
 /-- **Termination of the modelled part**: under the same hypotheses the pipeline never answers
 `foreign "hang"` (the outcome of the validator's, optimiser's and writer's step budgets). -/
-theorem C15_pipeline_terminates (u : Residual) (hu : StageHyps u)
-    (files : List (String × Bytes)) (opt : Bool) (fmt : Format) (text : List Nat) :
+theorem C15_pipeline_terminates (u : Residual) (files : List (String × Bytes)) (opt : Bool) (fmt : Format)
+    (hu : StageHyps u opt fmt) (text : List Nat) :
     ∃ S P, ∀ b : Budget, b.steps ≥ S → b.passes ≥ P → pipeline u files opt fmt b text ≠ .foreign "hang" := by
-  obtain ⟨S, P, h⟩ := C15_pipeline_total_partial u hu files opt fmt text
+  obtain ⟨S, P, h⟩ := C15_pipeline_total_partial u files opt fmt hu text
   refine ⟨S, P, fun b hs hp heq => ?_⟩
   have := h b hs hp
   rw [heq] at this
